@@ -114,6 +114,8 @@ class Run:
         self.interest_seen: Dict[str, Tuple[Any, D, Any]] = {}
         self.anomalies: List[str] = []
         self.before_clock: Dict[Any, Snap] = {}
+        self.events1: List[tuple] = []
+        self.events2: List[tuple] = []
         self.shared_lending = None      # a MarginLoans object already used by a previous exchange (re-use scenario)
         self.ls = None
         self.listing_stride = 6        # full listing comparison on every n-th snapshot once there are many orders
@@ -211,6 +213,7 @@ class Run:
         for pname in self.bars_by_pair:
             self.e.subscribe_to_bar_events(self.pairs[pname], self._mk_strategy(pname))
         self.e.subscribe_to_order_events(self.on_order_event)
+        self.e.subscribe_to_order_events(self.on_order_event_2)     # every subscriber gets the same sequence
         self.d.subscribe_all(self.post_sniffer)
         for job in sc.get("jobs", []):
             when = T(job["t"]) + (datetime.timedelta(minutes=30) if job.get("half") else datetime.timedelta(0)) + \
@@ -477,6 +480,13 @@ class Run:
                 for o in got2:
                     if o.id in snap.orders and _oi_key(o) != _oi_key(snap.orders[o.id]):
                         self.v("C05", "orders_listing_stale", f"get_orders returned a different state for {o.id}")
+        for sym in self.symbols:
+            b1 = await e.get_balance(sym)
+            exp_b = snap.bal.get(sym, (ZERO, ZERO, ZERO))
+            if (b1.available, b1.hold, b1.borrowed) != exp_b or b1.total != exp_b[0] + exp_b[1] - exp_b[2]:
+                self.v("C02", "get_balance_ne_get_balances", f"get_balance({sym}) = {b1}, get_balances() says {exp_b}")
+        if self.lend is None and snap.loans:
+            self.v("C10", "loan_without_lending", f"{len(snap.loans)} loans exist although no lending strategy is configured")
         for i in list(self.order_seq)[-5:]:
             info = await e.get_order_info(i)
             if i in snap.orders and _oi_key(info) != _oi_key(snap.orders[i]):
@@ -766,7 +776,11 @@ class Run:
             if a["nth_event"] == n:
                 await self.do(a["action"], ctx_order=ev.order.id)
 
+    async def on_order_event_2(self, ev) -> None:
+        self.events2.append((ev.when, ev.order.id, _ostate(ev.order)))
+
     def _on_order_event(self, ev) -> None:
+        self.events1.append((ev.when, ev.order.id, _ostate(ev.order)))
         oi = ev.order
         oid = oi.id
         self.events[oid].append((ev.when, oi))
@@ -1213,6 +1227,9 @@ class Run:
         """Offline checkers over the recorded logs (events per order, polled state sequences)."""
         end = self.prev
         assert end is not None
+        if self.events1 != self.events2:
+            self.v("C05", "subscribers_see_different_events",
+                   f"first subscriber got {len(self.events1)} order events, second {len(self.events2)} (or in another order)")
         # C05: event sequence == polled distinct-state sequence; acceptance first; time order; last == final
         for oid in self.order_seq:
             m = self.meta[oid]
